@@ -815,7 +815,6 @@ impl Context {
         // If we hit the execution step limit, bubble up the error to the
         // (Rust) caller instead of trying to handle as an exception.
         if !err.is_catchable() {
-            let mut frame = None;
             let mut env_fp = self.vm.frame().environments.len();
             loop {
                 if self.vm.frame().exit_early() {
@@ -824,15 +823,15 @@ impl Context {
 
                 env_fp = self.vm.frame().env_fp as usize;
 
-                let Some(f) = self.vm.pop_frame() else {
+                if self.vm.pop_frame().is_none() {
                     break;
-                };
-                frame = Some(f);
+                }
             }
             self.vm.frame_mut().environments.truncate(env_fp);
-            if let Some(frame) = frame {
-                self.vm.stack.truncate_to_frame(&frame);
-            }
+            // The host pops the frame we stopped at: remove its stack slots together with
+            // the ones of the frames popped above it.
+            let frame = self.vm.frames.last().expect("frame must exist");
+            self.vm.stack.truncate_to_frame(frame);
             return ControlFlow::Break(CompletionRecord::Throw(err));
         }
 
